@@ -15,8 +15,9 @@ import (
 type State struct {
 	guard  *Term
 	locals map[*ssa.Alloc]*Term
-	heap   map[string]*Term // field arrays, elem arrays, cells, globals, "wm"
-	base   string           // name prefix of the default (not yet touched) heap components
+	heap   map[string]*Term     // field arrays, elem arrays, cells, globals, "wm"
+	base   string               // name prefix of the default (not yet touched) heap components
+	laddr  map[*ssa.Alloc]*Addr // local cells currently holding an interior pointer
 	dead   bool
 }
 
@@ -27,6 +28,12 @@ func (s *State) clone() *State {
 	}
 	for k, v := range s.heap {
 		n.heap[k] = v
+	}
+	if len(s.laddr) > 0 {
+		n.laddr = map[*ssa.Alloc]*Addr{}
+		for k, v := range s.laddr {
+			n.laddr[k] = v
+		}
 	}
 	return n
 }
@@ -56,6 +63,7 @@ type Addr struct {
 	Ref   *Term
 	Idx   *Term
 	Path  []Proj
+	Nil   *Term      // non-nil: condition under which this (merged) interior pointer is nil
 	Root  types.Type // type stored at the root location
 	Typ   types.Type // type of the pointee (after path)
 }
@@ -135,6 +143,9 @@ type VC struct {
 	specErrs          []string
 	usedLemmas        []string
 	places            *framePlaces
+	tableFacts        int
+	foldedCases       int
+	tableEpoch        int
 }
 
 type specUFInfo struct {
